@@ -340,6 +340,8 @@ class Canon:
             return ast.Lambda(args=copy.deepcopy(e.args), body=self._conv(e.body, at, stack, depth, b2))
         if not isinstance(e, ast.AST):
             return e
+        if isinstance(e, ast.IfExp):
+            return self._ifexp(self._conv(e.test, at, stack, depth, bound), self._conv(e.body, at, stack, depth, bound), self._conv(e.orelse, at, stack, depth, bound))
         kw = {}
         for fieldname, val in ast.iter_fields(e):
             if isinstance(val, list):
@@ -423,14 +425,23 @@ class Canon:
         if isinstance(l0[0], ast.If) and l0[0] is l1[0] and {l0[1], l1[1]} == {"body", "orelse"} and not exits(l0[0].body) and not exits(l0[0].orelse):
             ifs = l0[0]
             body_v, else_v = ((v0, s0, k0), (v1, s1, k1)) if l0[1] == "body" else ((v1, s1, k1), (v0, s0, k0))
-            return ast.IfExp(test=self._conv(ifs.test, ifs, stack, depth + 1, {}), body=cv(*body_v), orelse=cv(*else_v))
+            return self._ifexp(self._conv(ifs.test, ifs, stack, depth + 1, {}), cv(*body_v), cv(*else_v))
         # default, then conditional override
         for (va, sa, ka, la), (vb, sb, kb, lb) in (((v0, s0, k0, l0), (v1, s1, k1, l1)), ((v1, s1, k1, l1), (v0, s0, k0, l0))):
             ifs = lb[0]
             if isinstance(ifs, ast.If) and lb[1] == "body" and not exits(ifs.body) and not self._inside(sa, ifs) \
                     and not any(self._inside(e[2], b) for e in self.entries.get(name, []) for b in ifs.orelse):
-                return ast.IfExp(test=self._conv(ifs.test, ifs, stack, depth + 1, {}), body=cv(vb, sb, kb), orelse=cv(va, sa, ka))
+                return self._ifexp(self._conv(ifs.test, ifs, stack, depth + 1, {}), cv(vb, sb, kb), cv(va, sa, ka))
         return None
+
+    @staticmethod
+    def _ifexp(test: ast.AST, body: ast.AST, orelse: ast.AST) -> ast.AST:
+        """Conditional expression in canonical orientation: a negated test (`not c`, `is not`, `!=`, `not in`) is written positively
+        with the arms swapped, so `a if not c else b` and `b if c else a` are the same text."""
+        from .sites import normal_polarity
+
+        t2, keep = normal_polarity(test, True)
+        return ast.IfExp(test=t2, body=body if keep else orelse, orelse=orelse if keep else body)
 
     def text(self, e: ast.AST | None, at: ast.AST | None = None) -> str:
         if e is None:
